@@ -107,6 +107,10 @@ func (h *killedHandler) cleanupIfNotRestarting() {
 	if h.ctx.parent != nil {
 		h.ctx.tell(true, h.ctx.parent, h.selfKilledMessage)
 	}
+
+	// 若终止时邮箱仍处于挂起状态（例如失败后被监管者直接停止），排队中的普通消息将永远滞留；
+	// 恢复邮箱使其被排空并进入死信
+	h.ctx.mailbox.Resume()
 }
 
 // cleanupScheduler 清理调度器
